@@ -1,0 +1,152 @@
+//go:build verif
+
+package floodPreventers
+
+// Contracts for govc (/verif). Comment-only file: no executable code, not part of the default build.
+// Property C42: per-peer flood quotas are enforced.
+
+/*@
+const two32 = 4294967296
+const two64 = 18446744073709551616
+
+// The cache (storage.Cacher) is abstracted: its content is not modelled. Assumed of it: it does not write the
+// preventer's configuration nor the quota objects it stores, and the values it returns are the non-nil quotas that
+// were put into it (this package only puts &quota{...}).
+func (c storage.Cacher) Get(key []byte) (value interface{}, ok bool)
+  ensures  stored-values-non-nil: ok ==> !isNil(value)
+  assigns  nothing
+func (c storage.Cacher) Put(key []byte, value interface{}, sizeInBytes int) (evicted bool)
+  requires put-values-are-non-nil: !isNil(value)
+  assigns  nothing
+func (c storage.Cacher) Clear()
+  assigns  nothing
+func (c storage.Cacher) Keys() (r [][]byte)
+  assigns  nothing
+func (h QuotaStatusHandler) ResetStatistics()
+  assigns  nothing
+func (h QuotaStatusHandler) AddQuota(pid core.PeerID, numReceived uint32, sizeReceived uint64, numProcessed uint32, sizeProcessed uint64)
+  assigns  nothing
+
+struct quotaFloodPreventer
+  invariant cacher_set: cacher != nil
+  invariant percent_in_range: percentReserved >= 0 && percentReserved <= 90
+  invariant factor_nonneg: increaseFactor >= 0
+  invariant minimum_quotas: baseMaxNumMessagesPerPeer >= 1 && maxTotalSizePerPeer >= 1
+  invariant handlers_set: forall k :: 0 <= k && k < len(statusHandlers) ==> statusHandlers[k] != nil
+
+// effective maximum = uint64(100 - percentReserved) * absoluteMax / 100: never above the absolute maximum
+func (qfp *quotaFloodPreventer) isMaximumReached(absoluteMax uint64, counted uint64) (r bool)
+  pure
+  requires inv.percent_in_range(qfp)
+  ensures  within-effective-implies-within-absolute: !r ==> counted <= absoluteMax
+  ensures  nothing-counted-never-reached: counted == 0 ==> !r
+
+// ---- per-quota accounting step ----
+// The contract language cannot quantify over pointers, and the object found in the cache cannot be named in a contract
+// (Get has two results). anyQuota() is an uninterpreted constant without axioms: a clause that mentions it is proved for
+// every interpretation, i.e. for EVERY quota object (generalisation on constants); lemmas use the same constant.
+spec fn anyQuota() *quota
+spec fn unchangedQuota(q *quota) bool = q.numReceivedMessages == old(q.numReceivedMessages) && q.sizeReceivedMessages == old(q.sizeReceivedMessages)
+   && q.numProcessedMessages == old(q.numProcessedMessages) && q.sizeProcessedMessages == old(q.sizeProcessedMessages)
+spec fn receivedStep(q *quota, size uint64) bool = q.numReceivedMessages == old(q.numReceivedMessages) + 1 && q.sizeReceivedMessages == old(q.sizeReceivedMessages) + size
+spec fn processedStep(q *quota, size uint64) bool = q.numProcessedMessages == old(q.numProcessedMessages) + 1 && q.sizeProcessedMessages == old(q.sizeProcessedMessages) + size
+spec fn processedSame(q *quota) bool = q.numProcessedMessages == old(q.numProcessedMessages) && q.sizeProcessedMessages == old(q.sizeProcessedMessages)
+// the acceptance test applied to the counters *after* counting the message
+spec fn withinQuota(qfp *quotaFloodPreventer, q *quota) bool = !qfp.isMaximumReached(uint64(qfp.computedMaxNumMessagesPerPeer), uint64(q.numReceivedMessages))
+   && !qfp.isMaximumReached(qfp.maxTotalSizePerPeer, q.sizeReceivedMessages)
+spec fn configSame(qfp *quotaFloodPreventer) bool = qfp.computedMaxNumMessagesPerPeer == old(qfp.computedMaxNumMessagesPerPeer)
+   && qfp.baseMaxNumMessagesPerPeer == old(qfp.baseMaxNumMessagesPerPeer) && qfp.maxTotalSizePerPeer == old(qfp.maxTotalSizePerPeer)
+   && qfp.cacher == old(qfp.cacher)
+
+func (q *quota) Size() (r int)
+  pure
+  ensures r == 24
+
+// quota invariant: what was processed was received (holds for {1,size,1,size} and is kept by every step)
+spec fn processedAtMostReceived(q *quota) bool = q.numProcessedMessages <= q.numReceivedMessages && q.sizeProcessedMessages <= q.sizeReceivedMessages
+
+func (qfp *quotaFloodPreventer) putDefaultQuota(pid core.PeerID, size uint64)
+  requires inv.cacher_set(qfp) && inv.percent_in_range(qfp)
+  ensures  existing-quotas-untouched: anyQuota() != nil && old(allocated(anyQuota())) ==> unchangedQuota(anyQuota())
+  ensures  config-unchanged: configSame(qfp) && inv.percent_in_range(qfp)
+
+func (qfp *quotaFloodPreventer) increaseLoad(pid core.PeerID, size uint64) (err error)
+  holds mutOperation
+  requires inv.cacher_set(qfp) && inv.percent_in_range(qfp)
+  requires no-counter-overflow-within-interval: anyQuota() != nil ==> anyQuota().numReceivedMessages + 1 < two32 && anyQuota().sizeReceivedMessages + size < two64
+  requires quota-invariant: anyQuota() != nil ==> processedAtMostReceived(anyQuota())
+  ensures  quota-invariant-kept: anyQuota() != nil && old(allocated(anyQuota())) ==> processedAtMostReceived(anyQuota())
+  ensures  per-quota-step: anyQuota() != nil && old(allocated(anyQuota())) ==> unchangedQuota(anyQuota())
+     || (receivedStep(anyQuota(), size) && ((err == nil && processedStep(anyQuota(), size) && withinQuota(qfp, anyQuota()))
+                                         || (err != nil && processedSame(anyQuota()) && !withinQuota(qfp, anyQuota()))))
+  ensures  config-unchanged: configSame(qfp) && inv.percent_in_range(qfp)
+
+func (qfp *quotaFloodPreventer) IncreaseLoad(pid core.PeerID, size uint64) (err error)
+  requires inv.cacher_set(qfp) && inv.percent_in_range(qfp)
+  requires no-counter-overflow-within-interval: anyQuota() != nil ==> anyQuota().numReceivedMessages + 1 < two32 && anyQuota().sizeReceivedMessages + size < two64
+  requires quota-invariant: anyQuota() != nil ==> processedAtMostReceived(anyQuota())
+  ensures  quota-invariant-kept: anyQuota() != nil && old(allocated(anyQuota())) ==> processedAtMostReceived(anyQuota())
+  ensures  per-quota-step: anyQuota() != nil && old(allocated(anyQuota())) ==> unchangedQuota(anyQuota())
+     || (receivedStep(anyQuota(), size) && ((err == nil && processedStep(anyQuota(), size) && withinQuota(qfp, anyQuota()))
+                                         || (err != nil && processedSame(anyQuota()) && !withinQuota(qfp, anyQuota()))))
+  ensures  config-unchanged: configSame(qfp) && inv.percent_in_range(qfp)
+
+// ---- the property, per quota object, over the contract of IncreaseLoad ----
+// N, B: any bounds at least max(1, message quota) and max(first message size, byte quota)
+lemma accepted-messages-stay-within-quota
+  vars qfp *quotaFloodPreventer, pid core.PeerID, size uint64, N uint32, B uint64
+  hyp  anyQuota() != nil && allocated(anyQuota())
+  hyp  bounds-cover-the-quotas: N >= qfp.computedMaxNumMessagesPerPeer && B >= qfp.maxTotalSizePerPeer
+  hyp  within-bounds-before: anyQuota().numProcessedMessages <= N && anyQuota().sizeProcessedMessages <= B
+  call err = qfp.IncreaseLoad(pid, size)
+  concl within-bounds-after: anyQuota().numProcessedMessages <= N && anyQuota().sizeProcessedMessages <= B
+  concl accepted-is-counted-exactly: (err == nil && !unchangedQuota(anyQuota())) ==> anyQuota().numProcessedMessages == old(anyQuota().numProcessedMessages) + 1
+     && anyQuota().sizeProcessedMessages == old(anyQuota().sizeProcessedMessages) + size
+  concl rejected-is-not-counted: err != nil ==> processedSame(anyQuota())
+
+// ---- consensus-size adjustment of the message quota ----
+// ApplyConsensusSize is outside the verifier's subset (`defer` placed after early returns = conditional defer): no contract.
+
+// ---- accepted configurations ----
+func (h QuotaStatusHandler) IsInterfaceNil() (r bool)
+  pure
+func (c storage.Cacher) IsInterfaceNil() (r bool)
+  pure
+
+func NewQuotaFloodPreventer(arg ArgQuotaFloodPreventer) (r *quotaFloodPreventer, err error)
+  ensures  one-or-the-other: (err == nil) != (r == nil)
+  ensures  accepted-has-cacher: err == nil ==> inv.cacher_set(r)
+  ensures  accepted-minimum-quotas: err == nil ==> inv.minimum_quotas(r)
+  ensures  accepted-percent-in-range: err == nil ==> inv.percent_in_range(r)
+  ensures  accepted-factor-nonneg: err == nil ==> inv.factor_nonneg(r)
+  ensures  accepted-handlers-set: err == nil ==> inv.handlers_set(r)
+  ensures  configured: err == nil ==> r.computedMaxNumMessagesPerPeer == arg.BaseMaxNumMessagesPerPeer && r.baseMaxNumMessagesPerPeer == arg.BaseMaxNumMessagesPerPeer
+     && r.maxTotalSizePerPeer == arg.MaxTotalSizePerPeer && r.cacher == arg.Cacher && r.increaseThreshold == arg.IncreaseThreshold
+
+loop 1
+  invariant -1 <= rangeindex && rangeindex < len(arg.StatusHandlers)
+  invariant forall k :: 0 <= k && k <= rangeindex ==> arg.StatusHandlers[k] != nil
+
+// ---- reset: statistics are reported, the cache is cleared, no quota object is modified ----
+func (qfp *quotaFloodPreventer) resetStatusHandlers()
+  requires inv.handlers_set(qfp)
+  assigns  nothing
+loop 1
+  invariant -1 <= rangeindex && rangeindex < len(qfp.statusHandlers)
+
+func (qfp *quotaFloodPreventer) addQuota(pid core.PeerID, numReceived uint32, sizeReceived uint64, numProcessed uint32, sizeProcessed uint64)
+  requires inv.handlers_set(qfp)
+  assigns  nothing
+loop 1
+  invariant -1 <= rangeindex && rangeindex < len(qfp.statusHandlers)
+
+func (qfp *quotaFloodPreventer) createStatistics()
+  requires inv.handlers_set(qfp) && inv.cacher_set(qfp)
+  assigns  nothing
+loop 1
+  invariant -1 <= rangeindex && rangeindex < len(keys)
+
+func (qfp *quotaFloodPreventer) Reset()
+  requires inv.handlers_set(qfp) && inv.cacher_set(qfp)
+  assigns  nothing
+@*/
